@@ -345,6 +345,32 @@ func TestReplay(t *testing.T) {
 		return v, n == 2
 	}
 	switch {
+	case vi.Meta["history"] != "":
+		// a version history: "New(7.4)" keeps a result, "New(x)!" is a malformed string, "parse" a parse
+		type kept struct {
+			s string
+			v *version.Version
+		}
+		var all []kept
+		for _, f := range strings.Fields(vi.Meta["history"]) {
+			switch {
+			case f == "parse":
+				px.Parse([]byte("<?php echo <<<A\n  x\n  A;\n"), px.V74, true)
+			case strings.HasPrefix(f, "New(") && strings.HasSuffix(f, ")!"):
+				_, _ = version.New(f[4 : len(f)-2])
+			case strings.HasPrefix(f, "New(") && strings.HasSuffix(f, ")"):
+				s := f[4 : len(f)-1]
+				if v, err := version.New(s); err == nil && v != nil {
+					all = append(all, kept{s, v})
+				}
+			}
+			for j, k := range all {
+				if ma, mi, ok := refParse(k.s); ok && (k.v.Major != ma || k.v.Minor != mi) {
+					harness.Failf(t, "version-history", src, vi.Meta, "the version obtained from %q (result #%d) reads %d.%d after the recorded history", k.s, j, k.v.Major, k.v.Minor)
+					return
+				}
+			}
+		}
 	case vi.Meta["versionA"] != "":
 		a, _ := pv(vi.Meta["versionA"])
 		b, _ := pv(vi.Meta["versionB"])
@@ -405,4 +431,71 @@ func TestReplay(t *testing.T) {
 	default:
 		t.Skip("nothing to replay in this file (command-line cases are re-run by TestCLIVersionFlag)")
 	}
+}
+
+// TestVersionHistory: a *Version obtained from a version string is a value of its own. A drawn history
+// of New calls (well-formed strings from a pool of a few dozen, malformed ones in between, parses that
+// make the library call New itself) keeps every result; after each step every earlier result must
+// still be the pair its string denotes, and Compare between kept results must follow numeric order.
+func TestVersionHistory(t *testing.T) {
+	harness.Check(t, "version-history", 4000, 120000, func(rt *rapid.T) {
+		type kept struct {
+			s            string
+			v            *version.Version
+			major, minor uint64
+		}
+		var all []kept
+		hist := ""
+		n := rapid.IntRange(3, 40).Draw(rt, "steps")
+		for i := 0; i < n; i++ {
+			switch rapid.IntRange(0, 9).Draw(rt, "step") {
+			case 0:
+				// the library's own use of New (heredoc end detection) in between
+				px.Parse([]byte("<?php echo <<<A\n  x\n  A;\n"), px.Ver{Major: 7, Minor: uint64(rapid.IntRange(0, 4).Draw(rt, "minor"))}, true)
+				hist += " parse"
+				continue
+			case 1:
+				s := rapid.SampledFrom([]string{"", "7", "7.", "a.b", "7.4.1", "-1.0"}).Draw(rt, "malformed")
+				_, _ = version.New(s)
+				hist += " New(" + s + ")!"
+				continue
+			}
+			s := fmt.Sprintf("%d.%d", rapid.IntRange(0, 9).Draw(rt, "major"), rapid.IntRange(0, 12).Draw(rt, "minor"))
+			if rapid.IntRange(0, 5).Draw(rt, "zeros") == 0 {
+				s = "0" + s
+			}
+			major, minor, _ := refParse(s)
+			var v *version.Version
+			var err error
+			if p := px.Guard(func() { v, err = version.New(s) }); p != "" || err != nil || v == nil {
+				harness.Fail(rt, "version-history", []byte(hist+" New("+s+")"), nil, "version.New(%q) fails after history%s: %v %s", s, hist, err, p)
+			}
+			hist += " New(" + s + ")"
+			all = append(all, kept{s, v, major, minor})
+			harness.Eval()
+			for j, k := range all {
+				if k.v.Major != k.major || k.v.Minor != k.minor {
+					harness.Fail(rt, "version-history", []byte(hist), map[string]string{"history": hist}, "after history%s the version obtained earlier from %q (result #%d) reads %d.%d", hist, k.s, j, k.v.Major, k.v.Minor)
+				}
+			}
+			if len(all) >= 2 {
+				a, b := all[rapid.IntRange(0, len(all)-1).Draw(rt, "a")], all[len(all)-1]
+				want := 0
+				switch {
+				case a.major < b.major, a.major == b.major && a.minor < b.minor:
+					want = -1
+				case a.major > b.major, a.major == b.major && a.minor > b.minor:
+					want = 1
+				}
+				got := a.v.Compare(b.v)
+				if (got < 0) != (want < 0) || (got > 0) != (want > 0) {
+					harness.Fail(rt, "version-history", []byte(hist), map[string]string{"history": hist}, "after history%s: Compare(%q, %q) = %d, numeric order says %d", hist, a.s, b.s, got, want)
+				}
+			}
+		}
+		if len(all) > 8 {
+			harness.NonTrivial([]byte(hist), "version history:"+hist)
+		}
+		harness.Class("version-history")
+	})
 }
